@@ -1,0 +1,92 @@
+//go:build verif
+
+package mqtt
+
+// Contracts for BaseClient: serve loop (C04, C06, C07), write (C05, C10), signaller
+// lookups (C07). Comments only; see verif_contracts_codec.go.
+
+// ---- guard table (C10): which lock protects which field -------------------------------
+//@ guard BaseClient.handler by mu
+//@ guard BaseClient.connState by mu
+//@ guard BaseClient.err by muErr
+//@ guard BaseClient.stats by muStats
+//@ guard signaller.chPingResp by mu
+//@ guard signaller.chPubAck by mu
+//@ guard signaller.chPubRec by mu
+//@ guard signaller.chPubComp by mu
+//@ guard signaller.chSubAck by mu
+//@ guard signaller.chUnsubAck by mu
+
+//@ spec
+//@ // ---- inbound flows, MQTT 3.1.1 section 4.3 (receiver side) ----
+//@ // the packet read in the current iteration of the serve loop
+//@ func itRead() bool          { return evCount("readPacket") == 1 && evRet[error]("readPacket", 0, 3) == nil }
+//@ func itType() packetType    { return evRet[packetType]("readPacket", 0, 0) }
+//@ func itPublish() *pktPublish { return evRet[*pktPublish]("(*pktPublish).Parse", 0, 0) }
+//@ func itIsPublish() bool {
+//@ 	return itRead() && itType() == packetPublish && evCount("(*pktPublish).Parse") == 1 && evRet[error]("(*pktPublish).Parse", 0, 1) == nil
+//@ }
+//@ func itPubRel() *pktPubRel { return evRet[*pktPubRel]("(*pktPubRel).Parse", 0, 0) }
+//@ func itIsPubRel() bool {
+//@ 	return itRead() && itType() == packetPubRel && evCount("(*pktPubRel).Parse") == 1 && evRet[error]("(*pktPubRel).Parse", 0, 1) == nil
+//@ }
+//@ func served() int  { return evCount("Handler.Serve") }
+//@ func written() int { return evCount("(*BaseClient).write") }
+//@
+//@ // the QoS2 buffer: unchanged / one entry added / one entry removed, whole view
+//@ func sbSame(m map[uint16]*Message, s msnap[uint16, *Message]) bool {
+//@ 	return forallKey(func(k uint16) bool { return mapHas(m, k) == snapHas(s, k) && (!mapHas(m, k) || m[k] == snapGet(s, k)) })
+//@ }
+//@ func sbPut(m map[uint16]*Message, s msnap[uint16, *Message], id uint16, v *Message) bool {
+//@ 	return forallKey(func(k uint16) bool {
+//@ 		return mapHas(m, k) == (k == id || snapHas(s, k)) && (!mapHas(m, k) || m[k] == ite(k == id, v, snapGet(s, k)))
+//@ 	})
+//@ }
+//@ func sbDel(m map[uint16]*Message, s msnap[uint16, *Message], id uint16) bool {
+//@ 	return forallKey(func(k uint16) bool {
+//@ 		return mapHas(m, k) == (k != id && snapHas(s, k)) && (!mapHas(m, k) || m[k] == snapGet(s, k))
+//@ 	})
+//@ }
+//@ end
+
+//@ func (*BaseClient).write
+//@   mode int
+//@   props C05 C10
+//@   requires c != nil && c.Transport != nil
+//@   assigns nothing
+//@   note under the io.Writer contract (err == nil ==> n == len(p)) the loop body runs at most once; the unwinding assertion proves it
+//@   loop 1 unroll 2
+//@   ensures[C10] wire: evCount("Transport.Write") >= 1 || len(b) == 0
+//@   ensures[C05,C10] whole: result == nil && len(b) > 0 ==> evCount("Transport.Write") == 1 && seqEq(evBytes("Transport.Write", 0, 1), seqOf(b))
+//@   ensures[C10] locked: evCount("Transport.Write") >= 1 ==> evIndex("lock", 0) < evIndex("Transport.Write", 0) && evIndex("Transport.Write", evCount("Transport.Write")-1) < evIndex("unlock", 0)
+
+//@ func (*BaseClient).serve
+//@   mode int
+//@   props C04 C06
+//@   maxpaths 20000
+//@   requires c != nil && c.sig != nil && c.Transport != nil
+//@   assigns nothing
+//@   loop 1 iterlet sb0 msnap[uint16, *Message] = mapSnap(subBuffer)
+//@   loop 1 invariant subBuffer != nil
+//@   ensures[C06] err_out: result != nil
+//@   ensures[C04] exit_counts: served() <= 1 && written() <= 1
+//@   ensures[C04] exit_order: served() == 1 && written() == 1 && itIsPublish() ==> evIndex("Handler.Serve", 0) < evIndex("(*BaseClient).write", 0)
+//@   ensures[C04] exit_qos2: itIsPublish() && itPublish().Message.QoS == QoS2 ==> served() == 0
+//@   ensures[C04] exit_qos0: itIsPublish() && itPublish().Message.QoS == QoS0 ==> written() == 0
+//@   loop 1 iter[C04] read: itRead()
+//@   loop 1 iter[C04] pub_serve: itIsPublish() && itPublish().Message.QoS <= QoS1 ==>
+//@        served() == ite(c.handler != nil, 1, 0) && (served() == 1 ==> evArg[*Message]("Handler.Serve", 0, 1) == itPublish().Message) && sbSame(subBuffer, sb0)
+//@   loop 1 iter[C04] qos0: itIsPublish() && itPublish().Message.QoS == QoS0 ==> written() == 0
+//@   loop 1 iter[C04] qos1: itIsPublish() && itPublish().Message.QoS == QoS1 ==>
+//@        written() == 1 && seqEq(evBytes("(*BaseClient).write", 0, 1), specAck(0x40, itPublish().Message.ID)) &&
+//@        (served() == 1 ==> evIndex("Handler.Serve", 0) < evIndex("(*BaseClient).write", 0))
+//@   loop 1 iter[C04] qos2: itIsPublish() && itPublish().Message.QoS == QoS2 ==>
+//@        served() == 0 && written() == 1 && seqEq(evBytes("(*BaseClient).write", 0, 1), specAck(0x50, itPublish().Message.ID)) &&
+//@        sbPut(subBuffer, sb0, itPublish().Message.ID, itPublish().Message)
+//@   loop 1 iter[C04] pubrel_known: itIsPubRel() && snapHas(sb0, itPubRel().ID) ==>
+//@        served() == ite(c.handler != nil, 1, 0) && (served() == 1 ==> evArg[*Message]("Handler.Serve", 0, 1) == snapGet(sb0, itPubRel().ID)) &&
+//@        written() == 1 && seqEq(evBytes("(*BaseClient).write", 0, 1), specAck(0x70, itPubRel().ID)) &&
+//@        (served() == 1 ==> evIndex("Handler.Serve", 0) < evIndex("(*BaseClient).write", 0)) &&
+//@        sbDel(subBuffer, sb0, itPubRel().ID)
+//@   loop 1 iter[C04] pubrel_unknown: itIsPubRel() && !snapHas(sb0, itPubRel().ID) ==> served() == 0 && written() == 0 && sbSame(subBuffer, sb0)
+//@   loop 1 iter[C04] other: itRead() && itType() != packetPublish && itType() != packetPubRel ==> served() == 0 && written() == 0 && sbSame(subBuffer, sb0)
